@@ -13,10 +13,11 @@ JCurve(r) ==
     /\ Clause(i, "C02.curve.shape", Len(o.q) = Len(r.qs))
     /\ Len(o.q) = Len(r.qs) =>
          /\ ClauseAll(i, "C02.curve.global_optimum", 1..Len(r.qs), LAMBDA j : CurveClosestOK(r.qs[j], v, o.q[j]))
-         \* the station carries the direction of the edge it names (strictly inside the edge; vertex rules belong to C01)
+         \* the station carries the direction of the edge it names - also when the closest point is an end of that edge
+         \* (the closest-point search reports the edge it found; the vertex rules of at_length belong to C01)
          /\ ClauseAll(i, "C02.curve.edge_direction", 1..Len(r.qs), LAMBDA j :
                LET k == o.q[j].idx + 1 IN
-               (k >= 1 /\ k <= Len(v) - 1 /\ o.q[j].fq > 0 /\ o.q[j].fq < QFc) => (o.q[j].dfin /\ DirMatches(o.q[j].d, Edge(v, k))))
+               (k >= 1 /\ k <= Len(v) - 1) => (o.q[j].dfin /\ DirMatches(o.q[j].d, Edge(v, k))))
 
 \* angle verdict for project_with_tol: offset (quantised) against the exact face normal; free when the nearest
 \* faces have different normals, when the offset is too short to have a direction, or near the threshold
